@@ -36,7 +36,8 @@ from mc.harness import internal_errors, std_execute
 ID = "C07"
 LEVEL = "model_checking"
 TECHNIQUE = ("stateless deviation-bounded exploration of the real connection handler under a virtual clock; "
-             "reference idle-timer automaton over observed virtual instants")
+             "reference idle-timer automaton over observed virtual instants, keep_alive_timeout at 4 / 0.5 and at its boundary 0; a read_timeout axis on histories whose "
+             "reader is parked inside the protocol while a request is in progress")
 RULE = ("scenario = engine x session history (HTTP/1.1 keep-alive and pipelines, HTTP/2 streams, error responses, "
         "WebSocket sessions ended by either side over HTTP/1.1 and HTTP/2) x keep_alive_timeout x (clock placement | peer-loss kind | shutdown); "
         "clock pauses/ticks, gate releases and the fault are separate sources interleaved at every position within "
@@ -45,9 +46,17 @@ ASSUMPTIONS = [
     "time enters only through which timers fired before each event (virtual clock; exact instants compared)",
     "a timer firing at the very instant a request head arrives may legitimately win (not judged)",
     "environment model bound to real sockets by ./check selftest",
+    "keep_alive_timeout = 0 means 'at once' (the statement: closed once idle for keep_alive_timeout): the idle deadline of "
+    "a fresh connection coincides with its opening, so most executions close it before any byte is read; a request is "
+    "served at T = 0 only when its head arrives mid-flight ahead of the timer (asyncio) - busy intervals at T = 0 are "
+    "covered by those executions only",
+    "read_timeout axis (histories *_rt, read_timeout 6 > keep_alive_timeout): chosen so that the reader waits for bytes "
+    "only while the connection is idle (the shorter idle timer decides) and is parked inside the protocol whenever a "
+    "request is in progress; histories on which a busy connection's reader waits for bytes - where the read deadline "
+    "may legitimately close it - are not generated under read_timeout",
 ]
-BOUNDS_DOC = {"quick": "M<=1, S<=2, R=0 plus trio M=0,S<=2,R<=2; T in {4}; %d session histories x (clock | 4 loss/shutdown kinds)",
-              "thorough": "M<=2, S<=3, trio R<=1; T in {0.5, 4}"}
+BOUNDS_DOC = {"quick": "M<=1, S<=2, R=0 plus trio M=0,S<=2,R<=2; T in {4}, and T = 0 on 16 of the histories (ZERO_HISTORIES); %d session histories (3 of them with read_timeout 6) x (clock | 4 loss/shutdown kinds)",
+              "thorough": "M<=2, S<=3, trio R<=1; T in {0.5, 4}, and T = 0 on every history without a read_timeout"}
 BUDGET = {"quick": 300, "thorough": 1800}
 
 OK200 = {"type": "http.response.start", "status": 200, "headers": [(b"content-length", b"2")]}
@@ -99,6 +108,17 @@ HISTORIES = {
     # the mirror image: the first answers at once, the second (already buffered when the first completes) is gated
     "pipe_gated2": ({"carrier": "h1"}, [("data", 0, GET + GET2)], {"http:/a": RESPOND, "http:/b": GATED}, {}),
     "pipe_nosend": ({"carrier": "h1"}, [("data", 0, GET + GET2)], {"http:/a": NOSEND, "http:/b": RESPOND}, {}),
+    # read_timeout axis (config.read_timeout = 6 > every keep_alive_timeout used here; all other histories: None).
+    # Histories on which the reader is PARKED inside the protocol for as long as the gate is closed - a pipelined
+    # (partial) request behind the unfinished response, a request body larger than the application queue (10) in
+    # front of an application that has not started reading - and waits for bytes only while the connection is idle:
+    # no read deadline runs while parked, so the busy connection is never closed however long the gate stays
+    # closed, and once idle the idle timer (shorter) is what closes it.
+    "pipe_gated_rt": ({"carrier": "h1"}, [("data", 0, GET + GET2)], {"http:/a": GATED, "http:/b": RESPOND}, {"read_timeout": 6}),
+    "gated_partial_rt": ({"carrier": "h1"}, [("data", 0, GET + GET2[:9])], {"http": GATED}, {"read_timeout": 6}),
+    "body_gated_rt": ({"carrier": "h1"}, [("data", 0, BIGPOST)],
+                      {"http": [("gate", "g1"), ("recv_body",), ("send", OK200), ("send", BODY), ("recv_until_disconnect",)]},
+                      {"read_timeout": 6}),
     "badhost": ({"carrier": "h1"}, [("data", 0, h1_request(b"GET", b"/a", host=b"other"))], {"http": RESPOND},
                 {"server_names": ["hypercorn"]}),
     "malformed": ({"carrier": "h1"}, [("data", 0, b"GET / HTTP/1.1\r\nbad header\r\n\r\n")], {"http": RESPOND}, {}),
@@ -163,6 +183,12 @@ HISTORIES = {
                          "http:/slow": [("recv_body",), ("gate", "never"), ("send", OK200), ("send", BODY)]}, {}),
 }
 FAULTS = ["eof", "reset", "wfail", "terminate"]
+# keep_alive_timeout = 0 ("closed once it has been idle for keep_alive_timeout": at the instant it becomes idle, never
+# while busy), on these histories in the quick tier / on every history without its own read_timeout in the thorough tier
+T_ZERO = 0
+ZERO_HISTORIES = {True: ("none", "partial", "one", "two", "one_then_partial", "gated", "pipe_gated", "malformed", "ws",
+                         "ws_app_close", "ws_h2_app_close", "h2pk_none", "h2_none", "h2_one", "h2_gated", "h2_rst"),
+                  False: tuple(n for n in HISTORIES if not n.endswith("_rt"))}
 BOUNDS_DOC["quick"] %= len(HISTORIES)
 
 
@@ -171,12 +197,14 @@ def scenarios(tier: str) -> List[Any]:
     ts = [4.0] if tier == "quick" else [4.0, 0.5]
     for engine in ("asyncio", "trio"):
         for name in HISTORIES:
-            for t in ts:
+            for t in ts + ([T_ZERO] if name in ZERO_HISTORIES[tier == "quick"] else []):
                 out.append(("idle", engine, name, t))
             for fault in FAULTS:
                 out.append(("dead", engine, name, fault))
             if engine == "trio":
                 out.append(("idle", engine, name, 4.0, "rev"))
+                if name in ZERO_HISTORIES[True]:
+                    out.append(("idle", engine, name, T_ZERO, "rev"))
                 for fault in FAULTS:
                     out.append(("dead", engine, name, fault, "rev"))
     return out
@@ -198,7 +226,11 @@ def build(params: Any) -> tuple:
         conn["methods"] = [b"GET", b"GET"]
     t = x if kind == "idle" else 4.0
     sources = [("client", list(client)), ("app", [("release", "g1")])]
-    if kind == "idle":
+    if kind == "idle" and t == 0:
+        # keep_alive_timeout = 0: no pause is shorter than the idle deadline; a lapse of 1 is possible only while no timer
+        # is armed at all (a request in progress, a WebSocket open - or an idle connection that was wrongly left alone)
+        sources.append(("clock", [("pause_dt", 1.0), ("tick",), ("pause_dt", 1.0)] + [("tick",)] * 6))
+    elif kind == "idle":
         sources.append(("clock", [("pause_dt", t / 2), ("tick",), ("pause_dt", t / 2)] + [("tick",)] * 6))
     else:
         fault = {"eof": ("eof", 0), "reset": ("reset", 0), "wfail": ("wfail", 0), "terminate": ("terminate",)}[x]
